@@ -7,6 +7,8 @@ WEAVE = [dict(file='src/fiber_manager.c', fns=FNS, loops='loops.json', split_rmw
                           'fiber_manager_wait_in_mpsc_queue': HELPER_STUBS, 'fiber_manager_wake_from_mpsc_queue': HELPER_STUBS,
                           'fiber_manager_wait_in_mpmc_queue': HELPER_STUBS, 'fiber_manager_wake_from_mpmc_queue': HELPER_STUBS,
                           'fiber_manager_set_and_wait': HELPER_STUBS, 'fiber_manager_clear_or_wait': HELPER_STUBS})]
+WEAVE += [dict(file='src/fiber.c', fns=['fiber_go_function', 'fiber_join_routine'], split_rmw=False,
+               stub_calls={'fiber_join_routine': ['fiber_mark_completed']})]
 LF = ['-DVERIF_LOOP_FLAG']
 GROUPS = [
     dict(name='yield_switch', tu='manager.c', harness='h_yield', mode='H', loop_contracts=True, defs=LF, functions=['fiber_manager_yield', 'fiber_manager_switch_to', 'fiber_manager_do_maintenance', 'fiber_destroy'], timeout=900),
@@ -16,6 +18,7 @@ GROUPS = [
     dict(name='wait_in_mpmc', tu='manager.c', harness='h_wait_mpmc', mode='H', defs=LF, functions=['fiber_manager_wait_in_mpmc_queue'], unwind=2, exact_unwind=True),
     dict(name='wake_from_mpmc', tu='manager.c', harness='h_wake_mpmc', mode='H', defs=LF, functions=['fiber_manager_wake_from_mpmc_queue'], unwind=6, bounded=True, bound='count <= 2, at most 2 empty pops'),
     dict(name='set_and_wait', tu='manager.c', harness='h_set_and_wait', mode='H', defs=LF, functions=['fiber_manager_set_and_wait'], unwind=2, exact_unwind=True),
+    dict(name='completion', tu='exit.c', harness='h_go', mode='H', defs=LF, functions=['fiber_go_function', 'fiber_join_routine'], unwind=2, exact_unwind=True),
     dict(name='lemmas', tu='lemmas.c', kind='lemmas', harness='', no_native='pure lemma'),
     dict(name='clear_or_wait', tu='manager.c', harness='h_clear_or_wait', mode='H', loop_contracts=True, defs=LF, functions=['fiber_manager_clear_or_wait'], unwind=2, exact_unwind=True),
 ]
